@@ -68,8 +68,9 @@ Judge(r, S, m) ==    \* set of <<property, why>>
   IN  (IF kind \notin {"success", "fail"} THEN {<<vprop, "no definite verdict: " \o kind>>}
        ELSE IF (kind = "fail") # reach THEN {<<vprop, IF kind = "fail" THEN "failure reported but no bad state is reachable within the bound" ELSE "success reported but a bad state is reachable within the bound">>}
        ELSE {})
-      \cup (IF kind = "fail" THEN LET w == WitWhy(RS, r.witness, r.cfg.k) IN IF w = "ok" THEN {} ELSE {<<"C03", w>>} ELSE {})
-      \cup (IF kind = "fail" /\ r.cfg.engine = "bmc" /\ Len(r.witness.inputs) - 1 > r.cfg.k THEN {<<"C03", "witness is longer than the bound">>} ELSE {})
+      \* (runs of the command-line tool print the witness of the re-parsed, simplified system: only the verdict is judged)
+      \cup (IF kind = "fail" /\ ~("cli" \in DOMAIN r) THEN LET w == WitWhy(RS, r.witness, r.cfg.k) IN IF w = "ok" THEN {} ELSE {<<"C03", w>>} ELSE {})
+      \cup (IF kind = "fail" /\ ~("cli" \in DOMAIN r) /\ r.cfg.engine = "bmc" /\ Len(r.witness.inputs) - 1 > r.cfg.k THEN {<<"C03", "witness is longer than the bound">>} ELSE {})
       \cup { <<"C10", w>> : w \in EventWhys(RS, r.events) }
 Next == /\ l <= Len(Rec)
         /\ LET r == Rec[l] IN
